@@ -340,7 +340,7 @@ def _skeletonize(tier, seed):
     logging.disable(logging.CRITICAL)
     root = _repo()
     evals, distinct, failures, samples = 0, set(), [], []
-    nets = ["examples/networks/Net1.inp", "examples/networks/Net3.inp", "wntr/tests/networks_for_testing/skeletonize.inp",
+    nets = ["examples/networks/Net1.inp", "examples/networks/Net2.inp", "examples/networks/Net3.inp", "wntr/tests/networks_for_testing/skeletonize.inp",
             "wntr/tests/networks_for_testing/Anytown.inp"] + (["examples/networks/Net6.inp"] if tier == "thorough" else [])
     inch = 0.0254
     for rel in nets:
@@ -368,13 +368,14 @@ def _skeletonize(tier, seed):
                 allm = [n for k, v in smap.items() for n in v]
                 ok4 = sorted(allm) == sorted(wn.node_name_list) and len(allm) == len(set(allm)) and \
                     set(k for k, v in smap.items() if v) == set(w2.node_name_list)
+                ok2 = ok2 and all(s_.node_name in w2.node_name_list for _, s_ in w2.sources()) and len(list(w2.sources())) == len(list(wn.sources()))
                 if not (ok1 and ok2 and ok3 and ok4):
                     failures.append(dict(net=rel, threshold=thr, options=opts, keeps_sources_pumps_valves=ok1, keeps_control_elements=ok2,
                                          total_demand_conserved=bool(ok3), map_is_partition=ok4))
                 if len(samples) < 2:
                     samples.append(dict(net=rel, threshold_m=thr, options=opts, nodes_before=wn.num_nodes, nodes_after=w2.num_nodes))
     return dict(evaluations=evals, distinct_nontrivial=len(distinct), failures=failures[:10], samples=samples, exhaustive=False,
-                scope="%s (networks without quality sources) x 4 diameter thresholds x 4 operation subsets: tanks/reservoirs/pumps/valves/control elements kept, "
+                scope="%s (Net2 carries a quality source on a dead-end junction) x 4 diameter thresholds x 4 operation subsets: tanks/reservoirs/pumps/valves/control elements kept, "
                       "total expected demand per time conserved, skeleton map is a partition of the original nodes onto the retained ones" % ", ".join(n.split('/')[-1] for n in nets))
 
 
